@@ -397,6 +397,90 @@ fn run2d<T: Fl>(job: &Job, out: &mut JobOut) {
     }
 }
 
+/// 64-bit integer axes whose knots lie beyond 2^53 (neighbouring knots are not distinct as f64):
+/// for every interval (cell) a twin whose data is poisoned everywhere except at the bracketing rows
+/// (corner nodes); every integer query of that interval must give the same answer on both.
+fn run_int(base: i64, steps: &[i64], out: &mut JobOut) {
+    use ndarray::{Array1, Array2};
+    use ndarray_interp::interp1d::{Interp1DBuilder, Linear};
+    use ndarray_interp::interp2d::{Bilinear, Interp2DBuilder};
+    let mut x = vec![base];
+    for h in steps {
+        x.push(x[x.len() - 1] + h);
+    }
+    let n = x.len();
+    let key = format!("i64:base{base}:steps{steps:?}").replace(' ', "");
+    let val = |i: usize| -> i64 { [5i64, -3, 8, 0, 12, -7, 4][i % 7] * 6 };
+    let poison = [i64::MAX / 8, -(i64::MAX / 8)];
+    let xa = Array1::from(x.clone());
+    let y0 = Array1::from((0..n).map(val).collect::<Vec<_>>());
+    let Ok(Ok(base_ip)) = catch(|| Interp1DBuilder::new(y0.clone()).x(xa.clone()).strategy(Linear::new()).build()) else {
+        out.violate(format!("{key}:build"), "valid i64 axis not accepted", Json::Null);
+        return;
+    };
+    out.states += 1;
+    for i in 0..n - 1 {
+        for (pk, &p) in poison.iter().enumerate() {
+            let yt = Array1::from((0..n).map(|r| if r == i || r == i + 1 { val(r) } else { p }).collect::<Vec<_>>());
+            let Ok(Ok(twin)) = catch(|| Interp1DBuilder::new(yt.clone()).x(xa.clone()).strategy(Linear::new()).build()) else { continue };
+            for q in x[i]..x[i + 1] {
+                let (a, b) = (catch(|| base_ip.interp_scalar(q)), catch(|| twin.interp_scalar(q)));
+                out.evals += 1;
+                out.nontrivial += 1;
+                out.transitions += 2;
+                let same = matches!((&a, &b), (Ok(Ok(u)), Ok(Ok(v))) if u == v);
+                if !same {
+                    out.violate(
+                        format!("{key}:linear:interval{i}:poison{pk}"),
+                        format!("Linear<i64> over x = {base} + {:?}: q = {q} (bracket {i},{}) gives {a:?}, but {b:?} when every other data row is set to {p}", x.iter().map(|v| v - base).collect::<Vec<_>>(), i + 1),
+                        Json::Null,
+                    );
+                    break;
+                }
+            }
+        }
+    }
+    // Bilinear: the same axis against a short y axis, and transposed
+    let yk = vec![base - 7, base - 6, base - 4];
+    let ya = Array1::from(yk.clone());
+    for transposed in [false, true] {
+        let (gx, gy) = if transposed { (&yk, &x) } else { (&x, &yk) };
+        let (gxa, gya) = if transposed { (ya.clone(), xa.clone()) } else { (xa.clone(), ya.clone()) };
+        let z0 = Array2::from_shape_fn((gx.len(), gy.len()), |(i, j)| val(i * 3 + j));
+        let Ok(Ok(base_ip)) = catch(|| Interp2DBuilder::new(z0.clone()).x(gxa.clone()).y(gya.clone()).strategy(Bilinear::new()).build()) else {
+            out.violate(format!("{key}:build2d"), "valid i64 grid not accepted", Json::Null);
+            return;
+        };
+        out.states += 1;
+        for i in 0..gx.len() - 1 {
+            for j in 0..gy.len() - 1 {
+                let p = poison[(i + j) % 2];
+                let zt = Array2::from_shape_fn((gx.len(), gy.len()), |(r, c)| if (r == i || r == i + 1) && (c == j || c == j + 1) { val(r * 3 + c) } else { p });
+                let Ok(Ok(twin)) = catch(|| Interp2DBuilder::new(zt.clone()).x(gxa.clone()).y(gya.clone()).strategy(Bilinear::new()).build()) else { continue };
+                'cell: for qx in gx[i]..gx[i + 1] {
+                    for qy in gy[j]..gy[j + 1] {
+                        let (a, b) = (catch(|| base_ip.interp_scalar(qx, qy)), catch(|| twin.interp_scalar(qx, qy)));
+                        out.evals += 1;
+                        out.nontrivial += 1;
+                        out.transitions += 2;
+                        if !matches!((&a, &b), (Ok(Ok(u)), Ok(Ok(v))) if u == v) {
+                            out.violate(
+                                format!("{key}:bilinear{}:cell{i},{j}", if transposed { "T" } else { "" }),
+                                format!("Bilinear<i64> (axes based at {base}): query ({}, {}) + base in cell ({i},{j}) gives {a:?}, but {b:?} when every node outside the cell is set to {p}", qx - base, qy - base),
+                                Json::Null,
+                            );
+                            break 'cell;
+                        }
+                    }
+                }
+            }
+        }
+    }
+    if out.sample.is_none() {
+        out.sample = Some(Json::str(&key));
+    }
+}
+
 fn body(ctx: &Ctx) -> (Summary, Meta) {
     let quick = ctx.quick();
     let mut jobs = vec![];
@@ -433,7 +517,15 @@ fn body(ctx: &Ctx) -> (Summary, Meta) {
         }
     }
     let njobs = jobs.len();
-    let sum = run_jobs(ctx, "bracket-only", &jobs, |j| j.key(), |j| {
+    let mut int_jobs: Vec<(i64, Vec<i64>)> = vec![];
+    for base in [0i64, 1 << 53, (1 << 60) + 1, -(1 << 62)] {
+        for n in [4usize, 9, 33] {
+            int_jobs.push((base, vec![1; n - 1]));
+            int_jobs.push((base, (0..n - 1).map(|i| [1i64, 3, 2, 1, 5][i % 5]).collect()));
+            int_jobs.push((base, (0..n - 1).map(|i| if i == n / 2 { 40 } else { 1 }).collect()));
+        }
+    }
+    let mut sum = run_jobs(ctx, "bracket-only", &jobs, |j| j.key(), |j| {
         let mut out = JobOut::default();
         nimc::subj::set_axis_reversed_in_memory(j.rev);
         match (j.ay.is_some(), j.f32) {
@@ -445,8 +537,13 @@ fn body(ctx: &Ctx) -> (Summary, Meta) {
         nimc::subj::set_axis_reversed_in_memory(false);
         out
     });
+    sum.merge(run_jobs(ctx, "i64-axes-beyond-2^53", &int_jobs, |j| format!("i64:base{}:steps{:?}", j.0, j.1).replace(' ', ""), |j| {
+        let mut out = JobOut::default();
+        run_int(j.0, &j.1, &mut out);
+        out
+    }));
     let meta = Meta {
-        rule: "for every axis / grid: a base interpolator and twins that differ only outside the bracket: every single non-bracketing data row (2-D: node, x-row, y-column) set to NaN, +inf, -inf, 7.5, all non-bracketing rows at once, and every non-bracketing axis knot moved to 2-4 places strictly between its neighbours (incl. 1 ulp from them, end knots far out). The whole ascending query list (3 outside below, per interval knot/+1ulp/quarters/-1ulp, last knot, 3 outside above) is evaluated in one call on base and twin and compared bit for bit wherever the bracket (C11 convention x[i] <= q < x[i+1]) does not touch the change. Every such comparison is non-trivial.".into(),
+        rule: "for every axis / grid: a base interpolator and twins that differ only outside the bracket: every single non-bracketing data row (2-D: node, x-row, y-column) set to NaN, +inf, -inf, 7.5, all non-bracketing rows at once, and every non-bracketing axis knot moved to 2-4 places strictly between its neighbours (incl. 1 ulp from them, end knots far out). The whole ascending query list (3 outside below, per interval knot/+1ulp/quarters/-1ulp, last knot, 3 outside above) is evaluated in one call on base and twin and compared bit for bit wherever the bracket (C11 convention x[i] <= q < x[i+1]) does not touch the change. Every such comparison is non-trivial. Phase i64-axes-beyond-2^53: i64 axes with 4 / 9 / 33 knots (unit steps, mixed steps, one wide interval) based at 0, 2^53, 2^60+1, -2^62: per interval (cell) a twin poisoned everywhere outside the bracket, every integer query of the interval, Linear and Bilinear (both orientations).".into(),
         bounds: format!("{njobs} (type, axis/grid) jobs; tier {}", ctx.tier.name()),
         assumptions: vec!["the bracket of a query exactly at an interior knot x[i] is (i, i+1), as C11 specifies".into()],
         extra: vec![],
